@@ -500,6 +500,8 @@ def exhaustive(tier, stats, shard, nshards, run):
         "sort, slice": lambda m, env: m.sorted([SortTerm(ra), SortTerm(rb), SortTerm(rc)])[1:3],
         "deduplication after projection": lambda m, env: m.with_only_columns({A}).without_duplicates(),
         "join with another leaf, selection on top": lambda m, env: m.join(env.leafrels[1]).with_rows_satisfying(ra.ge(lit(1))),
+        "join with a selection over another leaf (the other operand brings WHERE terms)": lambda m, env: m.join(env.leafrels[1].with_rows_satisfying(ColumnExpression.reference(D).le(lit(8)))),
+        "join with a selection over another leaf, as right operand": lambda m, env: env.leafrels[1].with_rows_satisfying(ColumnExpression.reference(D).le(lit(8))).join(m),
         "selection, then chain with the materialization itself": lambda m, env: m.with_rows_satisfying(ra.ge(lit(2))).chain(m),
     }
     upstream = {
